@@ -257,6 +257,15 @@ pub fn catalogue() -> Vec<Prog> {
     v.push(p("jsrnext", false, b"", vec![add_i(0, 0, 1), pc_lab("jsr", 0, "here"), add_i(1, 7, 0).lab("here"), pc_lab("lea", 2, "h2"), reg1("jsrr", 2),
                                         add_i(3, 7, 0).lab("h2"), halt()]));
     v.push(p("callnext", true, b"", vec![add_i(0, 0, 1), pc_lab("call", 0, "here"), reg1("pop", 1).lab("here"), add_i(2, 1, 0), halt()]));
+    // HALT written as a raw TRAP word with bits 11:8 set (the VM decodes bits 7:0 only): still a HALT for the debugger
+    v.push(p("halthigh", false, b"", vec![add_i(0, 0, 1), add_i(1, 1, 1), fill(0xF125), add_i(2, 2, 1), halt()]));
+    // a store to the very last word of memory (below the origin side is covered by selfmod)
+    v.push(p("storetop", false, b"", vec![and_i(1, 1, 0), add_i(0, 0, 9), base_off("str", 0, 1, -1), base_off("ldr", 2, 1, -1), halt()]));
+    // .break written BEFORE the .orig line of a program that does not start at the default origin
+    v.push(p("breakfirst", false, b"", vec![plain("break"), orig(0x4000), add_i(0, 0, 1), add_i(0, 0, 1).lab("second"), plain("break"), add_i(0, 0, 1), halt()]));
+    // two labels that differ only in letter case are two labels
+    v.push(p("casepair", false, b"", vec![pc_lab("ld", 0, "count"), pc_lab("ld", 1, "Count"), pc_lab("lea", 2, "COUNT"), halt(),
+                                         fill(0x11).lab("count"), fill(0x22).lab("Count"), fill(0x33).lab("COUNT")]));
     v.push(p("wrapld", false, b"", vec![orig(0x0000), pc_lit("ld", 0, -3), pc_lit("st", 0, -4), pc_lit("lea", 1, -2), base_off("ldr", 2, 1, -1), halt()]));
     v.push(p("data", false, b"", vec![
         pc_lab("ld", 0, "a"), pc_lab("ldi", 1, "pa"), pc_lab("lea", 2, "a"), base_off("ldr", 3, 2, 1), base_off("str", 3, 2, 2),
@@ -793,8 +802,38 @@ fn sessions_scenario(rng: &mut Rng) -> Vec<Session> {
                        simple("continue", rng)]);
     // io under the debugger
     sc!("io", false, [stepinto(Some(4), rng), simple("registers", rng), simple("continue", rng)]);
+    // a breakpoint on a one-instruction loop (a call to itself) resumed with EVERY resuming command, step out included
+    sc!("selfcall", true, [with_loc("breakadd", lab("deeper", 0), rng), simple("continue", rng), simple("stepout", rng), simple("registers", rng), simple("stepout", rng),
+                           simple("registers", rng), simple("continue", rng), simple("registers", rng), simple("step", rng), stepinto(Some(1), rng), simple("registers", rng),
+                           simple("exit", rng)]);
+    sc!("selfbr", true, [with_loc("breakadd", lab("spin", 0), rng), simple("continue", rng), simple("continue", rng), simple("step", rng), stepinto(Some(1), rng),
+                         stepinto(Some(3), rng), simple("registers", rng), simple("exit", rng)]);
+    // remove the first of three, add the second again (must be refused: it is still there), remove it, run
+    sc!("loop", true, [with_loc("breakadd", Loc::Addr(0x3001), rng), with_loc("breakadd", Loc::Addr(0x3003), rng), with_loc("breakadd", Loc::Addr(0x3005), rng),
+                       with_loc("breakremove", Loc::Addr(0x3001), rng), with_loc("breakadd", Loc::Addr(0x3003), rng), with_loc("breakremove", Loc::Addr(0x3003), rng),
+                       simple("breaklist", rng), simple("continue", rng), simple("registers", rng), simple("continue", rng), simple("exit", rng)]);
+    // reset leaves the breakpoint list alone: a removed .break stays removed, an added one stays
+    sc!("breaks", true, [with_loc("breakremove", lab("mid", 0), rng), with_loc("breakadd", lab("skip", 0), rng), simple("reset", rng), simple("breaklist", rng),
+                         simple("continue", rng), simple("continue", rng), simple("continue", rng), simple("continue", rng), simple("continue", rng), simple("exit", rng)]);
+    sc!("breakloop", true, [simple("continue", rng), with_loc("breakremove", lab("top", 0), rng), with_loc("breakadd", lab("top", 1), rng), simple("reset", rng),
+                            simple("continue", rng), simple("registers", rng), simple("continue", rng), simple("exit", rng)]);
+    // only the condition code differs from the load state when reset comes
+    sc!("brfirst", true, [eval(&add_i(0, 0, 0), true, None, rng), simple("registers", rng), simple("reset", rng), simple("registers", rng), simple("continue", rng),
+                          simple("registers", rng), simple("exit", rng)]);
+    sc!("brfirst", true, [stepinto(Some(2), rng), with_loc("goto", Loc::Addr(0x3000), rng), mov(Loc::Reg(5), 0, rng), simple("reset", rng), simple("continue", rng),
+                          simple("registers", rng), simple("exit", rng)]);
+    // a store to the last word of memory, then reset
+    sc!("storetop", true, [simple("continue", rng), with_loc("print", Loc::Addr(0xFFFF), rng), simple("reset", rng), with_loc("print", Loc::Addr(0xFFFF), rng),
+                           simple("registers", rng), simple("exit", rng)]);
+    // a HALT that was not in the image: written by the user, then run into
+    sc!("straight", true, [mov(Loc::Addr(0x3002), 0xF025, rng), simple("continue", rng), simple("registers", rng), simple("continue", rng), simple("step", rng), simple("exit", rng)]);
+    sc!("halthigh", false, [simple("continue", rng), simple("registers", rng), simple("continue", rng), simple("step", rng), stepinto(Some(2), rng), simple("registers", rng)]);
 
-    let cat = catalogue();
+    let mut cat = catalogue();
+    // programs used by scenarios only (they do not terminate on their own, or only make sense with their script)
+    cat.push(p("selfcall", true, b"", vec![add_i(0, 0, 1), pc_lab("call", 0, "deeper").lab("deeper"), halt()]));
+    cat.push(p("selfbr", false, b"", vec![and_i(0, 0, 0), br_lab(2, "spin").lab("spin"), halt()]));
+    cat.push(p("brfirst", false, b"", vec![br_lab(2, "z"), add_i(5, 5, 1), add_i(5, 5, 2).lab("z"), halt()]));
     let mut out = Vec::new();
     for (i, (name, script, mutating)) in table.into_iter().enumerate() {
         let prog = cat.iter().find(|p| p.name == name).expect("scenario program");
